@@ -27,6 +27,10 @@
   Property theorems only; the trace calculus and one `_tr` lemma per function live in CB/Lemmas/C01Leak.lean.
 -/
 import CB.Lemmas.C01Leak
+import CB.Lemmas.C01Leak2
+import CB.Lemmas.C01Leak3
+import CB.Lemmas.C01Leak4
+import CB.Model.Extracted
 namespace CB.P01
 open CB CB.Leak CB.Leak.Sec
 
@@ -151,6 +155,179 @@ theorem boxed_assign_ni (n : Nat) (a₁ b₁ a₂ b₂ : List Sec) (c₁ c₂ : 
 theorem boxed_swap_ni (n : Nat) (a₁ b₁ a₂ b₂ : List Sec) (c₁ c₂ : Sec) :
     (boxedCtSwap n a₁ b₁ c₁).tr = (boxedCtSwap n a₂ b₂ c₂).tr := by simp
 
+/-! ### extension round: multiplication (schoolbook squaring, fixed-size Karatsuba, size dispatch) -/
+
+/-- `Uint::not`, `Uint::bitxor`, `Uint::wrapping_sub`, `Uint::wrapping_neg_if` -/
+theorem uint_not_ni (n : Nat) (a₁ a₂ : List Sec) : (unot n a₁).tr = (unot n a₂).tr := by simp
+theorem uint_bitxor_ni (n : Nat) (a₁ b₁ a₂ b₂ : List Sec) : (ubitxor n a₁ b₁).tr = (ubitxor n a₂ b₂).tr := by simp
+theorem uint_wrapping_sub_ni (n : Nat) (a₁ b₁ a₂ b₂ : List Sec) : (wrappingSub n a₁ b₁).tr = (wrappingSub n a₂ b₂).tr := by simp
+theorem uint_wrapping_neg_if_ni (n : Nat) (a₁ a₂ : List Sec) (c₁ c₂ : Sec) :
+    (wrappingNegIf n a₁ c₁).tr = (wrappingNegIf n a₂ c₂).tr := by simp
+
+/-- `concat_mixed` / `split_mixed` / `resize`: only the (public) limb counts show -/
+theorem uint_concat_ni (l h o : Nat) (a₁ b₁ a₂ b₂ : List Sec) :
+    (concatMixed l h o a₁ b₁).tr = (concatMixed l h o a₂ b₂).tr := by simp
+theorem uint_split_ni (n l h : Nat) (a₁ a₂ : List Sec) : (splitMixed n l h a₁).tr = (splitMixed n l h a₂).tr := by simp
+theorem uint_resize_ni (n t : Nat) (a₁ a₂ : List Sec) : (resize n t a₁).tr = (resize n t a₂).tr := by simp
+
+/-- `schoolbook_squaring` (`uint_square_limbs`, `square_limbs`): triangle, doubling, diagonal — all loop bounds
+and the lo/hi placement tests are functions of the limb count -/
+theorem uint_square_schoolbook_ni (n : Nat) (a₁ a₂ : List Sec) :
+    (squareSchoolbook n a₁).tr = (squareSchoolbook n a₂).tr := by simp
+
+/-- one Karatsuba `reduce` step over ANY half-size multiplier that is itself noninterferent: |x0−x1|, |y1−y0|,
+the sign mask `z1_neg`, the conditional complement and the adc chain add no secret dependence -/
+theorem karatsuba_mul_step_ni (h : Nat) (m : List Sec → List Sec → L (List Sec × List Sec))
+    (hm : ∀ a b a' b', (m a b).tr = (m a' b').tr) (x₁ y₁ x₂ y₂ : List Sec) :
+    (karaMulStep h m x₁ y₁).tr = (karaMulStep h m x₂ y₂).tr := by
+  rw [karaMulStep_tr h m (m [] []).tr (fun a b => hm a b [] []), karaMulStep_tr h m (m [] []).tr (fun a b => hm a b [] [])]
+/-- the squaring step likewise -/
+theorem karatsuba_square_step_ni (h : Nat) (m : List Sec → L (List Sec × List Sec))
+    (hm : ∀ a a', (m a).tr = (m a').tr) (x₁ x₂ : List Sec) :
+    (karaSqStep h m x₁).tr = (karaSqStep h m x₂).tr := by
+  rw [karaSqStep_tr h m (m []).tr (fun a => hm a []), karaSqStep_tr h m (m []).tr (fun a => hm a [])]
+
+/-- `UintKaratsubaMul::<N>::multiply` for EVERY chain of sizes (the crate instantiates 128, 64, 32, 16, 8) -/
+theorem karatsuba_mul_ni (chain : List Nat) (x₁ y₁ x₂ y₂ : List Sec) :
+    (karaMulChain chain x₁ y₁).tr = (karaMulChain chain x₂ y₂).tr := by simp
+/-- `UintKaratsubaMul::<N>::square` for every chain of sizes (the crate: 128, 64, 32) -/
+theorem karatsuba_square_ni (chain : List Nat) (x₁ x₂ : List Sec) :
+    (karaSqChain chain x₁).tr = (karaSqChain chain x₂).tr := by simp
+
+/-- `Uint::split_mul` (`widening_mul`, `wrapping_mul`, `mul`): the Karatsuba/schoolbook dispatch is on the two limb
+counts; all limb counts `n`, `m` -/
+theorem uint_split_mul_ni (n m : Nat) (a₁ b₁ a₂ b₂ : List Sec) : (splitMul n m a₁ b₁).tr = (splitMul n m a₂ b₂).tr := by simp
+/-- `Uint::square_wide` (`square`, `widening_square`, `wrapping_square`) -/
+theorem uint_square_wide_ni (n : Nat) (a₁ a₂ : List Sec) : (squareWide n a₁).tr = (squareWide n a₂).tr := by simp
+/-- `Uint::wrapping_mul` -/
+theorem uint_wrapping_mul_ni (n m : Nat) (a₁ b₁ a₂ b₂ : List Sec) : (wrappingMul n m a₁ b₁).tr = (wrappingMul n m a₂ b₂).tr := by simp
+/-- `CheckedMul for Uint` -/
+theorem uint_checked_mul_ni (n m : Nat) (a₁ b₁ a₂ b₂ : List Sec) : (checkedMul n m a₁ b₁).tr = (checkedMul n m a₂ b₂).tr := by simp
+/-- `Uint::saturating_mul` -/
+theorem uint_saturating_mul_ni (n m : Nat) (a₁ b₁ a₂ b₂ : List Sec) :
+    (saturatingMul n m a₁ b₁).tr = (saturatingMul n m a₂ b₂).tr := by simp
+/-- `Uint::checked_square` -/
+theorem uint_checked_square_ni (n : Nat) (a₁ a₂ : List Sec) : (checkedSquare n a₁).tr = (checkedSquare n a₂).tr := by simp
+
+/-! ### extension round: `Int` (sign-magnitude forms; every sign decision is a mask) -/
+
+/-- `Int::is_negative` -/
+theorem int_is_negative_ni (n : Nat) (a₁ a₂ : List Sec) : (intIsNegative n a₁).tr = (intIsNegative n a₂).tr := by simp
+/-- `Int::abs_sign` / `abs` -/
+theorem int_abs_sign_ni (n : Nat) (a₁ a₂ : List Sec) : (intAbsSign n a₁).tr = (intAbsSign n a₂).tr := by simp
+/-- `Int::new_from_abs_sign` (magnitude and sign both secret) -/
+theorem int_new_from_abs_sign_ni (n : Nat) (a₁ a₂ : List Sec) (c₁ c₂ : Sec) :
+    (intNewFromAbsSign n a₁ c₁).tr = (intNewFromAbsSign n a₂ c₂).tr := by simp
+/-- `Int::overflowing_add` / `checked_add` / `+`: the overflow flag is `(msb = msb) & (msb ≠ msb)` on masks -/
+theorem int_overflowing_add_ni (n : Nat) (a₁ b₁ a₂ b₂ : List Sec) :
+    (intOverflowingAdd n a₁ b₁).tr = (intOverflowingAdd n a₂ b₂).tr := by simp
+theorem int_checked_add_ni (n : Nat) (a₁ b₁ a₂ b₂ : List Sec) : (intCheckedAdd n a₁ b₁).tr = (intCheckedAdd n a₂ b₂).tr := by simp
+/-- `CheckedSub for Int` / `-` -/
+theorem int_checked_sub_ni (n : Nat) (a₁ b₁ a₂ b₂ : List Sec) : (intCheckedSub n a₁ b₁).tr = (intCheckedSub n a₂ b₂).tr := by simp
+/-- `Int::overflowing_neg` / `wrapping_neg` / `checked_neg` -/
+theorem int_overflowing_neg_ni (n : Nat) (a₁ a₂ : List Sec) : (intOverflowingNeg n a₁).tr = (intOverflowingNeg n a₂).tr := by simp
+theorem int_checked_neg_ni (n : Nat) (a₁ a₂ : List Sec) : (intCheckedNeg n a₁).tr = (intCheckedNeg n a₂).tr := by simp
+/-- `Int::lt` / `ct_lt`, `Int::gt` / `ct_gt`, `Int::cmp` / `Ord`: unsigned comparison after flipping the sign bit -/
+theorem int_lt_ni (n : Nat) (a₁ b₁ a₂ b₂ : List Sec) : (intLt n a₁ b₁).tr = (intLt n a₂ b₂).tr := by simp
+theorem int_gt_ni (n : Nat) (a₁ b₁ a₂ b₂ : List Sec) : (intGt n a₁ b₁).tr = (intGt n a₂ b₂).tr := by simp
+theorem int_cmp_ni (n : Nat) (a₁ b₁ a₂ b₂ : List Sec) : (intCmp n a₁ b₁).tr = (intCmp n a₂ b₂).tr := by simp
+/-- `Int::split_mul` (sign-magnitude multiplication), all pairs of limb counts -/
+theorem int_split_mul_ni (n m : Nat) (a₁ b₁ a₂ b₂ : List Sec) : (intSplitMul n m a₁ b₁).tr = (intSplitMul n m a₂ b₂).tr := by simp
+/-- `CheckedMul<Int<m>> for Int<n>` / `*`: `new_from_abs_sign` + subtle's `and_then` (mask-select of the default) -/
+theorem int_checked_mul_ni (n m : Nat) (a₁ b₁ a₂ b₂ : List Sec) : (intCheckedMul n m a₁ b₁).tr = (intCheckedMul n m a₂ b₂).tr := by simp
+/-- `CheckedMul<Uint<m>> for Int<n>` -/
+theorem int_checked_mul_uint_ni (n m : Nat) (a₁ b₁ a₂ b₂ : List Sec) :
+    (intCheckedMulUint n m a₁ b₁).tr = (intCheckedMulUint n m a₂ b₂).tr := by simp
+/-- `Int::widening_mul` -/
+theorem int_widening_mul_ni (n m : Nat) (a₁ b₁ a₂ b₂ : List Sec) :
+    (intWideningMul n m a₁ b₁).tr = (intWideningMul n m a₂ b₂).tr := by simp
+/-- `Int::overflowing_shr` / `shr` / `>>` with a SECRET shift: ladder of public arithmetic shifts + select -/
+theorem int_shr_ni (n : Nat) (a₁ a₂ : List Sec) (s₁ s₂ : Sec) :
+    (intOverflowingShr n a₁ s₁).tr = (intOverflowingShr n a₂ s₂).tr := by simp
+/-- `Int::wrapping_shr` -/
+theorem int_wrapping_shr_ni (n : Nat) (a₁ a₂ : List Sec) (s₁ s₂ : Sec) :
+    (intWrappingShr n a₁ s₁).tr = (intWrappingShr n a₂ s₂).tr := by simp
+/-- `Int::checked_div_rem` / `rem` / `/` by `NonZero<Int>`: unsigned constant-time division of the magnitudes,
+re-signed under masks (at source level; the compiled division branches: findings C01-int-div-*) -/
+theorem int_checked_div_rem_ni (n : Nat) (a₁ d₁ a₂ d₂ : List Sec) :
+    (intCheckedDivRem n a₁ d₁).tr = (intCheckedDivRem n a₂ d₂).tr := by simp
+/-- `Int::checked_div(&Int)` INCLUDING a zero divisor: `NonZero::new(rhs).and_then(…)` substitutes `ONE` under a
+mask — the option handling adds no secret dependence -/
+theorem int_checked_div_ni (n : Nat) (a₁ d₁ a₂ d₂ : List Sec) : (intCheckedDiv n a₁ d₁).tr = (intCheckedDiv n a₂ d₂).tr := by simp
+/-- `Int::checked_div_rem_floor` / `checked_div_floor` -/
+theorem int_checked_div_rem_floor_ni (n : Nat) (a₁ d₁ a₂ d₂ : List Sec) :
+    (intCheckedDivRemFloor n a₁ d₁).tr = (intCheckedDivRemFloor n a₂ d₂).tr := by simp
+/-- `Int::div_rem_uint` / `div_uint` / `rem_uint` -/
+theorem int_div_rem_uint_ni (n : Nat) (a₁ d₁ a₂ d₂ : List Sec) : (intDivRemUint n a₁ d₁).tr = (intDivRemUint n a₂ d₂).tr := by simp
+/-- `Int::div_rem_floor_uint` / `div_floor_uint` / `normalized_rem` -/
+theorem int_div_rem_floor_uint_ni (n : Nat) (a₁ d₁ a₂ d₂ : List Sec) :
+    (intDivRemFloorUint n a₁ d₁).tr = (intDivRemFloorUint n a₂ d₂).tr := by simp
+
+/-! ### extension round: `BoxedUint` arithmetic — the two precisions `na`, `nb` are public, the limbs are not -/
+
+/-- `BoxedUint::adc` / `sbb` with different precisions (zero padding by a bounds test on the public index) -/
+theorem boxed_adc_ni (na nb : Nat) (a₁ b₁ a₂ b₂ : List Sec) (c₁ c₂ : Sec) :
+    (boxedAdc na nb a₁ b₁ c₁).tr = (boxedAdc na nb a₂ b₂ c₂).tr := by simp
+theorem boxed_sbb_ni (na nb : Nat) (a₁ b₁ a₂ b₂ : List Sec) (c₁ c₂ : Sec) :
+    (boxedSbb na nb a₁ b₁ c₁).tr = (boxedSbb na nb a₂ b₂ c₂).tr := by simp
+/-- `adc_assign` / `sbb_assign` / `conditional_adc_assign` / `conditional_sbb_assign` (choice secret) -/
+theorem boxed_adc_assign_ni (n m : Nat) (a₁ b₁ a₂ b₂ : List Sec) (c₁ c₂ : Sec) :
+    (boxedAdcAssign n m a₁ b₁ c₁).tr = (boxedAdcAssign n m a₂ b₂ c₂).tr := by simp
+theorem boxed_sbb_assign_ni (n m : Nat) (a₁ b₁ a₂ b₂ : List Sec) (c₁ c₂ : Sec) :
+    (boxedSbbAssign n m a₁ b₁ c₁).tr = (boxedSbbAssign n m a₂ b₂ c₂).tr := by simp
+theorem boxed_conditional_adc_assign_ni (n m : Nat) (a₁ b₁ a₂ b₂ : List Sec) (c₁ c₂ : Sec) :
+    (boxedCondAdcAssign n m a₁ b₁ c₁).tr = (boxedCondAdcAssign n m a₂ b₂ c₂).tr := by simp
+theorem boxed_conditional_sbb_assign_ni (n m : Nat) (a₁ b₁ a₂ b₂ : List Sec) (c₁ c₂ : Sec) :
+    (boxedCondSbbAssign n m a₁ b₁ c₁).tr = (boxedCondSbbAssign n m a₂ b₂ c₂).tr := by simp
+/-- `BoxedUint::wrapping_neg`, `conditional_negate` -/
+theorem boxed_wrapping_neg_ni (n : Nat) (a₁ a₂ : List Sec) : (boxedWrappingNeg n a₁).tr = (boxedWrappingNeg n a₂).tr := by simp
+theorem boxed_conditional_negate_ni (n : Nat) (a₁ a₂ : List Sec) (c₁ c₂ : Sec) :
+    (boxedConditionalNegate n a₁ c₁).tr = (boxedConditionalNegate n a₂ c₂).tr := by simp
+/-- `BoxedUint::is_zero` -/
+theorem boxed_is_zero_ni (n : Nat) (a₁ a₂ : List Sec) : (boxedIsZero n a₁).tr = (boxedIsZero n a₂).tr := by simp
+/-- `ct_eq` / `==`, `ct_lt`, `ct_gt`, `Ord::cmp` of values with DIFFERENT precisions: the zero padding is steered by
+the two limb counts only -/
+theorem boxed_ct_eq_ni (na nb : Nat) (a₁ b₁ a₂ b₂ : List Sec) : (boxedCtEq na nb a₁ b₁).tr = (boxedCtEq na nb a₂ b₂).tr := by simp
+theorem boxed_ct_lt_ni (na nb : Nat) (a₁ b₁ a₂ b₂ : List Sec) : (boxedCtLt na nb a₁ b₁).tr = (boxedCtLt na nb a₂ b₂).tr := by simp
+theorem boxed_ct_gt_ni (na nb : Nat) (a₁ b₁ a₂ b₂ : List Sec) : (boxedCtGt na nb a₁ b₁).tr = (boxedCtGt na nb a₂ b₂).tr := by simp
+theorem boxed_cmp_ni (na nb : Nat) (a₁ b₁ a₂ b₂ : List Sec) : (boxedCmp na nb a₁ b₁).tr = (boxedCmp na nb a₂ b₂).tr := by simp
+/-- `BoxedUint::shr1` -/
+theorem boxed_shr1_ni (n : Nat) (a₁ a₂ : List Sec) : (boxedShr1 n a₁).tr = (boxedShr1 n a₂).tr := by simp
+/-- `BoxedUint::add_mod` / `sub_mod` / `neg_mod` (modulus secret too) -/
+theorem boxed_add_mod_ni (n : Nat) (a₁ b₁ p₁ a₂ b₂ p₂ : List Sec) : (boxedAddMod n a₁ b₁ p₁).tr = (boxedAddMod n a₂ b₂ p₂).tr := by simp
+theorem boxed_sub_mod_ni (n : Nat) (a₁ b₁ p₁ a₂ b₂ p₂ : List Sec) : (boxedSubMod n a₁ b₁ p₁).tr = (boxedSubMod n a₂ b₂ p₂).tr := by simp
+theorem boxed_neg_mod_ni (n : Nat) (a₁ p₁ a₂ p₂ : List Sec) : (boxedNegMod n a₁ p₁).tr = (boxedNegMod n a₂ p₂).tr := by simp
+/-- bit operations of `BoxedUint` (the slice functions shared with `Uint`) and `trailing_ones` -/
+theorem boxed_set_bit_ni (n : Nat) (a₁ a₂ : List Sec) (i₁ i₂ v₁ v₂ : Sec) :
+    (boxedSetBit n a₁ i₁ v₁).tr = (boxedSetBit n a₂ i₂ v₂).tr := by simp
+theorem boxed_leading_zeros_ni (n : Nat) (a₁ a₂ : List Sec) : (boxedLeadingZeros n a₁).tr = (boxedLeadingZeros n a₂).tr := by simp
+theorem boxed_trailing_zeros_ni (n : Nat) (a₁ a₂ : List Sec) : (boxedTrailingZeros n a₁).tr = (boxedTrailingZeros n a₂).tr := by simp
+theorem boxed_bits_ni (n : Nat) (a₁ a₂ : List Sec) : (boxedBits n a₁).tr = (boxedBits n a₂).tr := by simp
+theorem boxed_bit_ni (n : Nat) (a₁ a₂ : List Sec) (i₁ i₂ : Sec) : (boxedBit n a₁ i₁).tr = (boxedBit n a₂ i₂).tr := by simp
+theorem trailing_ones_ni (n : Nat) (a₁ a₂ : List Sec) : (trailingOnes n a₁).tr = (trailingOnes n a₂).tr := by simp
+/-- `BoxedUint::inv_mod2k(k)` with SECRET `k` -/
+theorem boxed_inv_mod2k_ni (n : Nat) (a₁ a₂ : List Sec) (k₁ k₂ : Sec) :
+    (boxedInvMod2k n a₁ k₁).tr = (boxedInvMod2k n a₂ k₂).tr := by simp
+/-- `adc_mul_limbs`, `conditional_wrapping_neg_assign` (boxed Karatsuba helpers) -/
+theorem adc_mul_limbs_ni (nl nr : Nat) (l₁ r₁ o₁ l₂ r₂ o₂ : List Sec) :
+    (adcMulLimbs nl nr l₁ r₁ o₁).tr = (adcMulLimbs nl nr l₂ r₂ o₂).tr := by simp
+theorem conditional_wrapping_neg_assign_ni (n : Nat) (l₁ l₂ : List Sec) (c₁ c₂ : Sec) :
+    (condNegAssign n l₁ c₁).tr = (condNegAssign n l₂ c₂).tr := by simp
+/-- `karatsuba_mul_limbs`: for every recursion budget and every pair of lengths the trace is the same for all limb
+values — the recursion, the split sizes and the trailing passes follow the lengths only -/
+theorem karatsuba_mul_limbs_ni (fuel nl nr : Nat) (l₁ r₁ l₂ r₂ : List Sec) :
+    (karaMulLimbs fuel nl nr l₁ r₁).tr = (karaMulLimbs fuel nl nr l₂ r₂).tr := by simp
+/-- `karatsuba_square_limbs` -/
+theorem karatsuba_square_limbs_ni (fuel n : Nat) (a₁ a₂ : List Sec) :
+    (karaSquareLimbs fuel n a₁).tr = (karaSquareLimbs fuel n a₂).tr := by simp
+/-- `BoxedUint::mul` / `square` / `wrapping_mul` / `checked_mul`, all precisions -/
+theorem boxed_mul_ni (na nb : Nat) (a₁ b₁ a₂ b₂ : List Sec) : (boxedMul na nb a₁ b₁).tr = (boxedMul na nb a₂ b₂).tr := by simp
+theorem boxed_square_ni (n : Nat) (a₁ a₂ : List Sec) : (boxedSquare n a₁).tr = (boxedSquare n a₂).tr := by simp
+theorem boxed_wrapping_mul_ni (na nb : Nat) (a₁ b₁ a₂ b₂ : List Sec) :
+    (boxedWrappingMul na nb a₁ b₁).tr = (boxedWrappingMul na nb a₂ b₂).tr := by simp
+theorem boxed_checked_mul_ni (na nb : Nat) (a₁ b₁ a₂ b₂ : List Sec) :
+    (boxedCheckedMul na nb a₁ b₁).tr = (boxedCheckedMul na nb a₂ b₂).tr := by simp
+
 /-! ## T01.2 — `_vartime` operations: the trace is a function of the documented-public operand only -/
 
 /-- `shl_vartime(shift)`: for a fixed shift the trace does not depend on the value -/
@@ -169,6 +346,25 @@ theorem inv_mod2k_vartime_trace_pub (n k : Nat) (a₁ a₂ : List Sec) :
 theorem pow_bounded_exp_trace_pub (n ebits : Nat) (x₁ e₁ m₁ o₁ x₂ e₂ m₂ o₂ : List Sec) (v₁ v₂ : Sec) :
     (powBoundedExp n x₁ e₁ ebits m₁ o₁ v₁).tr = (powBoundedExp n x₂ e₂ ebits m₂ o₂ v₂).tr := by simp
 
+/-- `Int::overflowing_shr_vartime(shift)` / `shr_vartime`: for a fixed shift the trace depends neither on the value nor on its sign -/
+theorem int_shr_vartime_trace_pub (n shift : Nat) (a₁ a₂ : List Sec) :
+    (intShrVartime n a₁ shift).tr = (intShrVartime n a₂ shift).tr := by simp
+/-- `BoxedUint::shr_vartime(shift)` -/
+theorem boxed_shr_vartime_trace_pub (n shift : Nat) (a₁ d₁ a₂ d₂ : List Sec) :
+    (boxedShrVartimeInto n a₁ d₁ shift).tr = (boxedShrVartimeInto n a₂ d₂ shift).tr := by simp
+/-- `BoxedUint::inv_mod2k_vartime(k)` -/
+theorem boxed_inv_mod2k_vartime_trace_pub (n k : Nat) (a₁ a₂ : List Sec) :
+    (boxedInvMod2kVartime n a₁ k).tr = (boxedInvMod2kVartime n a₂ k).tr := by simp
+/-- `BoxedUint::overflowing_shl / overflowing_shr` AS WRITTEN (not vartime by name): the trace is a function of the
+precision and of the SHIFT — which reaches the hardware division of `shift % bits_precision` — but not of the
+shifted value (finding C01-boxed-shift-modulo-hw-div is exactly the dependence on the shift) -/
+theorem boxed_shl_trace_of_shift (n : Nat) (s : Sec) (a₁ a₂ : List Sec) :
+    (boxedOverflowingShl n a₁ s).tr = (boxedOverflowingShl n a₂ s).tr := by
+  rw [boxedOverflowingShl_tr, boxedOverflowingShl_tr]
+theorem boxed_shr_trace_of_shift (n : Nat) (s : Sec) (a₁ a₂ : List Sec) :
+    (boxedOverflowingShr n a₁ s).tr = (boxedOverflowingShr n a₂ s).tr := by
+  rw [boxedOverflowingShr_tr, boxedOverflowingShr_tr]
+
 -- … and the public operand really shows (the statements above are not vacuous "trace = []"):
 example : (shlVartime 2 [] 1).tr ≠ (shlVartime 2 [] 64).tr := by decide
 example : (shrVartime 2 [] 1).tr ≠ (shrVartime 2 [] 65).tr := by decide
@@ -178,6 +374,24 @@ example : (powBoundedExp 1 [] [] 4 [] [] zero).tr ≠ (powBoundedExp 1 [] [] 5 [
 example : (uselect 3 [ofNat 1, ofNat 2, ofNat 3] [] max).tr = [.pubIndex 0, .pubIndex 1, .pubIndex 2] := by decide
 example : (powBoundedExp 1 [] [] 0 [] [] zero).tr ≠ (powBoundedExp 1 [] [] 1 [] [] zero).tr := by decide +kernel
 example : (divRem 2 [ofNat 7, ofNat 9] [ofNat 3]).tr.length = 220 := by decide +kernel
+
+example : (intShrVartime 2 [] 1).tr ≠ (intShrVartime 2 [] 64).tr := by decide
+example : (boxedShrVartimeInto 2 [] [] 1).tr ≠ (boxedShrVartimeInto 2 [] [] 64).tr := by decide
+example : (boxedInvMod2kVartime 1 [] 1).tr ≠ (boxedInvMod2kVartime 1 [] 2).tr := by decide
+-- the public limb counts do show: Karatsuba vs schoolbook dispatch, mixed boxed precisions
+example : (splitMul 16 16 [] []).tr.length = 889 := by decide +kernel
+example : (splitMul 16 16 [] []).tr ≠ (mulSchoolbook 16 16 [] []).tr := by decide +kernel
+example : (boxedCtEq 1 2 [] []).tr ≠ (boxedCtEq 2 2 [] []).tr := by decide
+example : (boxedAdc 1 3 [] [] zero).tr ≠ (boxedAdc 2 3 [] [] zero).tr := by decide
+-- the size constants of the model are the ones extracted from the Rust source (tools/extract.py)
+example : karaMulSizes = [Extracted.karaMulChain0, Extracted.karaMulChain1, Extracted.karaMulChain2,
+    Extracted.karaMulChain3, Extracted.karaMulChain4] := by decide
+example : karaSqSizes = [Extracted.karaSqChain0, Extracted.karaSqChain1, Extracted.karaSqChain2] := by decide
+example : splitMulDispatchSizes = [Extracted.splitMulDispatch0, Extracted.splitMulDispatch1,
+    Extracted.splitMulDispatch2, Extracted.splitMulDispatch3] := by decide
+example : squareWideDispatchSizes = [Extracted.squareWideDispatch0, Extracted.squareWideDispatch1] := by decide
+example : Extracted.karatsubaMaxReduceLimbs = 24 ∧ Extracted.karatsubaMinStartingLimbs = 32 ∧
+    Extracted.karaSquareReduceFactor = 2 ∧ Extracted.boxedSquareStartFactor = 2 := by decide
 
 /-! ## T01.3 — the model catches secret-dependent control flow, addressing and division operands -/
 
@@ -205,6 +419,10 @@ feeds the SECRET shift to a hardware division (finding C01-boxed-shift-modulo-hw
 `BITS` is a compile-time constant (`uint_shl_ni`). -/
 theorem boxed_shl_feeds_secret_to_div :
     (boxedOverflowingShl 1 [ofNat 1] (ofNat 0)).tr ≠ (boxedOverflowingShl 1 [ofNat 1] (ofNat 1)).tr := by decide
+
+/-- `BoxedUint::overflowing_shr_assign` has the same run-time `%` as the left shift -/
+theorem boxed_shr_feeds_secret_to_div :
+    (boxedOverflowingShr 1 [ofNat 1] (ofNat 0)).tr ≠ (boxedOverflowingShr 1 [ofNat 1] (ofNat 1)).tr := by decide
 
 /-- safegcd `jump` (behind the NON-vartime `inv_mod`, `inv_odd_mod`, `gcd`, `MontyForm::inv`): the trip count
 follows the trailing zeros of `g` and the body branches on the sign of `delta`
